@@ -516,3 +516,129 @@ pub fn replay(scenarios: &[Box<dyn Scenario>], path: &Path) -> i32 {
         }
     }
 }
+
+//------------ Determinism self-test ----------------------------------------------
+
+/// Hash of everything observable about run `idx`: event log, tape, verdict.
+pub fn run_hash(s: &dyn Scenario, tier: Tier, seed: u64, idx: u64) -> Result<u64, String> {
+    let kind = kind_of(s, tier, idx);
+    let tape = Tape::generate(tape::mix(&[seed, scenario_salt(s), idx]));
+    let (out, rec) = run_guarded(s, kind, tape, true)?;
+    let mut h = crate::common::fnv(out.log.join("\n").as_bytes());
+    for v in &rec {
+        h = tape::mix(&[h, *v]);
+    }
+    h = tape::mix(&[h, out.sig, out.evaluations, out.sim_ms]);
+    if let Some(v) = &out.violation {
+        h = tape::mix(&[h, crate::common::fnv(v.ident().as_bytes())]);
+    }
+    Ok(h)
+}
+
+/// Prints `id idx hash` for idx in from..to, computed on `jobs` threads.
+pub fn hashes(s: &dyn Scenario, seed: u64, from: u64, to: u64, jobs: usize) -> Result<Vec<(u64, u64)>, String> {
+    let next = AtomicU64::new(from);
+    let out: Mutex<Vec<(u64, u64)>> = Mutex::new(Vec::new());
+    let err: Mutex<Option<String>> = Mutex::new(None);
+    std::thread::scope(|scope| {
+        for _ in 0..jobs.max(1) {
+            scope.spawn(|| loop {
+                let idx = next.fetch_add(1, Ordering::SeqCst);
+                if idx >= to {
+                    break;
+                }
+                match run_hash(s, Tier::Quick, seed, idx) {
+                    Ok(h) => out.lock().unwrap().push((idx, h)),
+                    Err(e) => {
+                        *err.lock().unwrap() = Some(e);
+                        break;
+                    }
+                }
+            });
+        }
+    });
+    if let Some(e) = err.into_inner().unwrap() {
+        return Err(e);
+    }
+    let mut v = out.into_inner().unwrap();
+    v.sort();
+    Ok(v)
+}
+
+/// Runs a sample of seeds in this process (1 thread), in this process (16
+/// threads) and in 16 concurrent child processes, and compares the hashes.
+pub fn selftest_determinism(scenarios: &[Box<dyn Scenario>], seed: u64, per_scenario: u64) -> i32 {
+    let exe = std::env::current_exe().expect("exe");
+    let mut bad = 0u64;
+    for s in scenarios {
+        let s = s.as_ref();
+        let sweep = s.sweep_len(Tier::Quick);
+        // half sweep cells, half random runs
+        let from = sweep.saturating_sub(per_scenario / 2);
+        let to = from + per_scenario;
+        let a = match hashes(s, seed, from, to, 1) {
+            Ok(v) => v,
+            Err(e) => {
+                eprintln!("HARNESS ERROR: {}", e);
+                return 2;
+            }
+        };
+        let b = hashes(s, seed, from, to, 16).unwrap_or_default();
+        // 16 concurrent child processes, each with 2 threads, on interleaved slices
+        let n_children = 16u64;
+        let slice = (to - from).div_ceil(n_children);
+        let mut children = Vec::new();
+        for c in 0..n_children {
+            let f = from + c * slice;
+            let t = (f + slice).min(to);
+            if f >= t {
+                continue;
+            }
+            let child = std::process::Command::new(&exe)
+                .args(["hashes", s.id(), &f.to_string(), &t.to_string(), "--jobs", "2"])
+                .env("VERIF_SEED", seed.to_string())
+                .stdout(std::process::Stdio::piped())
+                .spawn()
+                .expect("spawn child");
+            children.push(child);
+        }
+        let mut c_all: Vec<(u64, u64)> = Vec::new();
+        for child in children {
+            let outp = child.wait_with_output().expect("child output");
+            for line in String::from_utf8_lossy(&outp.stdout).lines() {
+                let mut it = line.split_whitespace();
+                if let (Some(_id), Some(i), Some(h)) = (it.next(), it.next(), it.next()) {
+                    if let (Ok(i), Ok(h)) = (i.parse(), h.parse()) {
+                        c_all.push((i, h));
+                    }
+                }
+            }
+        }
+        c_all.sort();
+        let distinct: std::collections::BTreeSet<u64> = a.iter().map(|x| x.1).collect();
+        let ok_b = a == b;
+        let ok_c = a == c_all;
+        println!(
+            "determinism {} ({}): {} runs [{}..{}): 1-thread vs 16-thread {}, vs 16 child processes {}; {} distinct hashes",
+            s.id(), s.name(), a.len(), from, to,
+            if ok_b { "identical" } else { "DIFFER" },
+            if ok_c { "identical" } else { "DIFFER" },
+            distinct.len()
+        );
+        if !ok_b || !ok_c {
+            bad += 1;
+            for (x, y) in a.iter().zip(b.iter()).chain(a.iter().zip(c_all.iter())) {
+                if x != y {
+                    println!("  first divergence at run {}: {} vs {}", x.0, x.1, y.1);
+                    break;
+                }
+            }
+        }
+    }
+    if bad > 0 {
+        eprintln!("HARNESS ERROR: nondeterministic runs detected");
+        2
+    } else {
+        0
+    }
+}
